@@ -573,7 +573,7 @@ var clauseKeywords = map[string]bool{
 	"property": true, "trusted": true, "pure": true, "effect": true, "inline": true,
 	"requires": true, "ensures": true, "modifies": true,
 	"loop": true, "invariant": true, "decreases": true, "unordered": true,
-	"spec": true, "axiom": true, "lemma": true, "sort": true, "witness": true, "uses": true, "ghost": true, "deterministic": true, "global": true, "global_assumed": true,
+	"spec": true, "axiom": true, "lemma": true, "sort": true, "witness": true, "uses": true, "induction": true, "ghost": true, "deterministic": true, "global": true, "global_assumed": true,
 }
 
 type logical struct {
@@ -661,6 +661,11 @@ func ParseLines(pkg, path string, lines []Line) (*File, error) {
 			if cur.TrustWhy == "" {
 				return nil, fmt.Errorf("%s: trusted needs a reason", l.pos)
 			}
+		case "induction":
+			if curLemma == nil {
+				return nil, fmt.Errorf("%s: induction outside lemma", l.pos)
+			}
+			curLemma.Induction = strings.TrimSpace(rest)
 		case "uses":
 			if curLemma != nil {
 				curLemma.Uses = append(curLemma.Uses, strings.Fields(rest)...)
